@@ -559,6 +559,11 @@ def general_program(draw, cfg, max_steps=30, extra=(), disable=()):
                 b.add({'t': 'org', 'e': b.value(spot, consts)})
                 feats.add('origin')
                 local_defined = set()
+                if d(st.integers(0, 3)) == 0:
+                    # the first line at the new address produces no bytes; bytes follow
+                    b.add(d(st.sampled_from([{'t': 'fill', 'n': ['num', 0, 'dec'], 'v': ['num', 7, 'dec']}, {'t': 'zero', 'n': ['num', 0, 'dec']}])))
+                    b.add({'t': 'instr', 'mn': 'nop', 'ops': []})
+                    feats.add('byte-less-line-first-at-a-new-origin')
         elif choice == 'orgzone' and zones:
             zn = d(st.sampled_from(zones + ['GLOBAL']))
             z = b.lay.zones[zn]
